@@ -134,6 +134,8 @@ func binPath(root, build string) string {
 		return filepath.Join(root, "bin", "vcheck-race")
 	case "asan":
 		return filepath.Join(root, "bin", "vcheck-asan")
+	case "386":
+		return filepath.Join(root, "bin", "vcheck-386")
 	}
 	return filepath.Join(root, "bin", "vcheck")
 }
@@ -164,6 +166,10 @@ func buildVariant(root, build string) error {
 	cmd.Env = append(os.Environ(), "GOFLAGS=-mod=mod", "GOPROXY=off", "GOSUMDB=off", "GOTOOLCHAIN=local")
 	if build == "asan" {
 		cmd.Env = append(cmd.Env, "CC=clang", "CGO_ENABLED=1")
+	}
+	if build == "386" {
+		// 32-bit int: the same suites with lengths that do not fit an int
+		cmd.Env = append(cmd.Env, "GOARCH=386", "CGO_ENABLED=0")
 	}
 	out, err := cmd.CombinedOutput()
 	if err != nil {
